@@ -100,6 +100,10 @@ let dispatch op args = match op, args with
       let ops = List.map hop ops in
       L [(match hash_model (zl keys) (zl vals) (oz sc) (oz m) ops with Refused -> N | Ok o -> L (List.map hout o));
          L (List.map hout (hash_spec (zl keys) (zl vals) (oz sc) ops))]
+  | "hash_eq", [k1; v1; s1; m1; k2; v2; s2; m2] ->
+      (match hash_eq (zl k1) (zl v1) (oz s1) (oz m1) (zl k2) (zl v2) (oz s2) (oz m2) with
+       | None -> L [N; N]
+       | Some (a, b) -> L [I (if a then Zpos XH else Z0); I (if b then Zpos XH else Z0)])
   | "bit_unpack", [a; b] -> L [vzl (bit_unpack (zl a) (zi b)); vzl (zl a)]
   | "bit_get", [a; b; idx] ->
       let spec = (try vzl (List.map (fun i -> let n = List.length (zl a) in let j = small_of_z i in
